@@ -190,6 +190,22 @@ func NativeReplay(p *Program, cases []ReplayCase, keepDir string) ([]ReplayResul
 				}
 			}
 		}
+		// a fatal stack overflow kills the whole test process: the first case without a result is the one that died that way
+		if out := strings.Join(raw, "\n"); strings.Contains(out, "stack overflow") || strings.Contains(out, "goroutine stack exceeds") {
+			first := true
+			for _, i := range idxs {
+				if seen[i] {
+					continue
+				}
+				if first {
+					results[i] = ReplayResult{Idx: i, Panic: "fatal error: stack overflow (the process died)"}
+					first = false
+				} else {
+					results[i] = ReplayResult{Idx: i, Failures: []string{"not run: the replay process died of a stack overflow in an earlier case"}}
+				}
+				seen[i] = true
+			}
+		}
 		for _, i := range idxs {
 			if !seen[i] {
 				tail := raw
